@@ -36,6 +36,11 @@ func coCreate(L *LState) int {
 }
 
 func coYield(L *LState) int {
+	if L.nCcalls > 0 {
+		// the interpreter loop that would have to be suspended was entered
+		// from Go code (pcall, a metamethod, an iterator, a callback)
+		L.RaiseError("attempt to yield across metamethod/C-call boundary")
+	}
 	return -1
 }
 
